@@ -105,11 +105,14 @@ func (v *rawValue) wire(c *cases) string {
 
 type sut struct {
 	*store
-	mid      int         // model store id
-	received []*rawValue // acceptable values of writes that were not hit by an injected fault
-	ops      []string    // model op lines so far (replay)
-	lastRows []stored
+	mid       int         // model store id
+	received  []*rawValue // acceptable values of writes that were not hit by an injected fault
+	ops       []string    // model op lines so far (replay)
+	lastRows  []stored
 	lastState string
+	noModel   bool              // oracle-only store (schedules the model cannot express)
+	loose     bool              // an exchange with in-flight arrivals is running: contents need only dominate what this store received
+	known     map[int]*rawValue // loose mode: every acceptable value either store may legitimately hold
 }
 
 func (c *cases) newSut(owner *device) *sut {
@@ -344,7 +347,7 @@ func (c *cases) observe(s *sut, op, res string) {
 		adv = "1"
 	}
 	state := fmt.Sprintf("st=%s ix=%s adv=%s", join(stParts), join(ixParts), adv)
-	if op != "new" && !strings.HasPrefix(op, "exch") {
+	if op != "new" && !strings.HasPrefix(op, "exch") && !s.noModel {
 		model := c.r.Ask(op)
 		c.r.Check(prop, "kv.step", s.ops, model, res+" "+state)
 	}
